@@ -10,7 +10,11 @@
    Part 2  numbers:   number lexing is stable under appending a delimiter; decimal print/parse round trip
    Part 3  encoder:   the bytes written for a tree are [sep ++ tree_text]
    Part 4  decoder:   json_ref reads [tree_text t ++ rest] as [json_img t]
-   Part 5  C07_json, json_enc_tree_value; the explicit_radix patch is a number (from the grammar hypothesis) *)
+   Part 5  C07_json, json_enc_tree_value (hypotheses: the float text and the patched float text read as numbers)
+   Part 6  the explicit_radix patch of a number text over +-.0123456789e is a number text
+   Part 7  C07_json_strconv: the same with hypotheses about strconv only
+   Part 8  json_img_expand, json_img_exact (no floats + valid UTF-8: the image is the value itself)
+   Part 9  a toy instance *)
 From SF Require Import Base.Prelude Base.PreludeProofs Base.Utf8 Core.Events Core.EventsProofs
   Core.AdapterProofs Ubjson.Enc Json.Enc Json.EncProofs Json.Spec Json.SpecProofs.
 From Coq Require Import ZifyBool ZifyNat ZifyN.
@@ -307,10 +311,32 @@ Proof.
 Qed.
 
 (* the same for the body alone *)
-Lemma unescape_step g b c r out rest : b = c :: r -> (c =? 34) = false ->
-  json_char b = ChOk out rest ->
-  json_unescape_loop (S g) b = match json_unescape_loop g rest with Some t => Some (out ++ t) | None => None end.
-Proof. intros -> Hc H. cbn [json_unescape_loop]. rewrite Hc, H. reflexivity. Qed.
+
+Lemma unescape_mono fu : forall s t fu', json_unescape_loop fu s = Some t -> (length s < fu')%nat ->
+  json_unescape_loop fu' s = Some t.
+Proof.
+  induction fu as [|fu IH]; intros s t fu' H Hl; [discriminate|].
+  destruct fu' as [|fu']; [lia|]. cbn [json_unescape_loop] in H |- *.
+  destruct s as [|c r]; [exact H|].
+  destruct (c =? 34) eqn:Eq; [discriminate|].
+  destruct (json_char (c :: r)) as [o b'| |] eqn:EC; try discriminate.
+  destruct (json_unescape_loop fu b') as [t'|] eqn:EU; [|discriminate].
+  destruct (json_char_inv _ _ _ _ EC Eq) as (cons & Ec & Hne & _ & _).
+  assert (Hlen : (length b' < length (c :: r))%nat).
+  { rewrite Ec, app_length. destruct cons; [contradiction|]. cbn [length]. lia. }
+  rewrite (IH b' t' fu' EU) by (cbn [length] in *; lia). exact H.
+Qed.
+
+Theorem json_unescape_roundtrip html s : all_bytes s = true ->
+  json_unescape (esc_body (S (length s)) html s) = Some (sanitize s).
+Proof.
+  intro Hb. pose proof (json_string_roundtrip html s [] Hb) as H. unfold json_string in H.
+  destruct (json_string_inv _ _ _ _ _ H) as (body & t & fu & Eb & Eo & Hu & _).
+  apply app_inv_tail in Eb. subst body. cbn [rev app] in Eo. subst t.
+  unfold json_unescape. eapply unescape_mono; [exact Hu|lia].
+Qed.
+Print Assumptions json_string_roundtrip.
+Print Assumptions json_unescape_roundtrip.
 
 (* ====================================================================== *)
 (* Part 2: numbers                                                         *)
@@ -540,6 +566,9 @@ Proof.
       replace ((-9223372036854775808 <=? z) && (z <? 18446744073709551616)) with true by lia.
       reflexivity.
 Qed.
+
+Print Assumptions json_number_app.
+Print Assumptions int_reads_as.
 
 Lemma nkind_int_range k z : nkind_ok k z = true -> k <> KFloat32 -> k <> KFloat64 ->
   -9223372036854775808 <= z < 18446744073709551616.
